@@ -1,4 +1,5 @@
 import LettreVerif.Proofs.Client
+import LettreVerif.Proofs.SaslPlain
 /-!
 # C14 — Authentication picks an offered mechanism and encodes credentials exactly
 -/
@@ -26,6 +27,32 @@ theorem initial_response_exact (u p : Bytes) :
         Base64.dec pl = some (str "user=" ++ u ++ [1] ++ str "auth=Bearer " ++ p ++ [1, 1])) ∧
     authFirstLine .login u p = str "AUTH LOGIN" ++ CRLF :=
   first_line_credential u p
+
+/-- **What an RFC 4616 server makes of the PLAIN response**: it base64-decodes the argument of the AUTH line and splits it at
+    the NULs into authorization identity, authentication identity and password — and finds no authorization identity, exactly
+    the user name and exactly the password, for every user name and password without NUL (any other octet: blanks, `=`, CR / LF,
+    non-ASCII). (`Proofs/SaslPlain.lean`; with a NUL inside, the pieces shift — RFC 4616 forbids NUL in both.) -/
+theorem plain_read_by_server (u p : Bytes) (hu : ∀ b ∈ u, b ≠ 0) (hp : ∀ b ∈ p, b ≠ 0) :
+    ∃ pl, authFirstLine .plain u p = str "AUTH " ++ Mech.plain.name ++ [32] ++ pl ++ CRLF ∧
+      (Base64.dec pl).bind SaslPlain.read = some ([], u, p) := by
+  obtain ⟨⟨pl, h1, h2⟩, _⟩ := initial_response_exact u p
+  exact ⟨pl, h1, by rw [h2]; exact SaslPlain.read_plain u p hu hp⟩
+
+/-- the same for XOAUTH2: a server that splits the decoded response at the `^A`s and strips `user=` / `auth=Bearer ` finds
+    exactly the user and exactly the token, for all `^A`-free credentials -/
+theorem xoauth2_read_by_server (u t : Bytes) (hu : ∀ b ∈ u, b ≠ 1) (ht : ∀ b ∈ t, b ≠ 1) :
+    ∃ pl, authFirstLine .xoauth2 u t = str "AUTH " ++ Mech.xoauth2.name ++ [32] ++ pl ++ CRLF ∧
+      (Base64.dec pl).bind SaslXoauth2.read = some (u, t) := by
+  obtain ⟨_, ⟨pl, h1, h2⟩, _⟩ := initial_response_exact u t
+  refine ⟨pl, h1, ?_⟩
+  rw [h2]
+  have := SaslXoauth2.read_xoauth2 u t hu ht
+  simpa [List.append_assoc] using this
+
+/-- non-vacuity: a password with blanks, `=` and a line break is read back; with a NUL inside the user name the server reads
+    other pieces (four of them: refused) -/
+example : SaslPlain.read ([0] ++ str "user" ++ [0] ++ str "p w=\r\n") = some ([], str "user", str "p w=\r\n") ∧
+    SaslPlain.read ([0] ++ [117, 0, 120] ++ [0] ++ str "pw") = none := by decide
 
 /-- A challenge is answered only by LOGIN, and only with the base64 of the user name or of the
     password (which one: user-name prompts, in any letter case, get the user name; password
